@@ -317,11 +317,9 @@ def run(ctx: Ctx):
     n_reg_ops = n_reg_inst = 0
     rrng = ctx.rng("registered")
     regs = registered_defs()
-    if ctx.quick:
-        regs = rrng.sample(regs, min(len(regs), 400))
     for cls, d, asprop in regs:
         insts = []
-        for inst in gen_insts(rrng, d, 5 if ctx.quick else 12):
+        for inst in gen_insts(rrng, d, 4 if ctx.quick else 16):
             try:
                 op = make_instance(cls, d, inst, ext, asprop)
             except Exception:  # noqa: BLE001
@@ -352,7 +350,7 @@ def run(ctx: Ctx):
                          "definitions": len(cases) - n_reg_ops, "registered_operations": n_reg_ops, "registered_operation_instances": n_reg_inst, "definitions_refused_by_library": skipped, "verify_internal_errors": crashes, "judge_states": res.states,
                          "rule": "seeded definitions (<=3 operand, <=2 result, <=2 region segments of kind single/optional/variadic; constraints any / eq / shared "
                                  "type variable; options none/same-size/attr-sized) x raw instances (lists up to 4/3/3, size arrays incl. missing, wrong length, "
-                                 "negative, not summing) + constructor-built instances; plus the segment structure of every IRDL operation of every registered dialect (quick: 400 sampled) against raw "
+                                 "negative, not summing) + constructor-built instances; plus the segment structure of every IRDL operation of every registered dialect against raw "
                                  "instances, one-sided (no split => rejected); distinct = distinct (definition, instance) pairs"})
     ctx.sample({"def": cases[0]["def"], "inst": cases[0]["insts"][0]})
     ctx.assumptions += ["OpDefVerify.tla's exists-a-split semantics is the property; properties/attributes other than the size arrays are not generated",
